@@ -53,12 +53,14 @@ def make_ctx(bound, symbols=None):
             keys = _keys_of_prefix(prefix)
             if keys is not None:
                 self.vlog.append(keys)
-            hit = id(cfgobj) in self._eval_cache_id
-            before = len(vmod.CALLS)
-            r = super().evaluate_node(cfgobj, prefix)
-            if not hit and isinstance(cfgobj, FunctionNode) and type(cfgobj).__name__ == "CallNode" and len(vmod.CALLS) > before:
-                self.vcalls.append((len(vmod.CALLS) - 1, keys or [], str(cfgobj._func)))
-            return r
+            if isinstance(cfgobj, FunctionNode):
+                # the recording targets attribute each call to the innermost function node being evaluated
+                vmod.STACK.append(keys or [])
+                try:
+                    return super().evaluate_node(cfgobj, prefix)
+                finally:
+                    vmod.STACK.pop()
+            return super().evaluate_node(cfgobj, prefix)
 
     return Ctx()
 
@@ -166,6 +168,7 @@ def observe(tree, lifecycle=False):
     # a node that is being evaluated recurses ~1000 frames deep before it surfaces as an EvalError
     bound = 2 * npaths * npaths + 2 + 4000
     del vmod.CALLS[:]
+    del vmod.STACK[:]
     ctx = make_ctx(bound)
     out = {"status": "done", "data": {"k": "none", "v": list(S.NOVAL), "ch": []}, "ids": [], "classes": [], "calls": [], "ev": [],
            "issues": [], "lifecycle": "ok"}
@@ -183,12 +186,12 @@ def observe(tree, lifecycle=False):
         out["status"] = status_of_exception(e) if isinstance(e, errors.Error) else (
             "RequiredError" if str(e).startswith("The following required nodes") else "Crash:ValueError")
         out["ev"] = ctx.vlog
-        out["calls"] = [[p, fn] for _, p, fn in sorted(ctx.vcalls)]
+        out["calls"] = [[c[3] or [], "vmod." + c[0]] for c in vmod.CALLS]
         return out
     except Exception as e:  # noqa
         out["status"] = status_of_exception(e)
         out["ev"] = ctx.vlog
-        out["calls"] = [[p, fn] for _, p, fn in sorted(ctx.vcalls)]
+        out["calls"] = [[c[3] or [], "vmod." + c[0]] for c in vmod.CALLS]
         return out
     ids, issues = [], []
     data = plain_result(cfg, [], ids, issues)
@@ -196,8 +199,8 @@ def observe(tree, lifecycle=False):
     out["issues"] = issues
     # what the calls received / the partials hold: the values of argument nodes are observable there
     arg_ids = []
-    for idx, p, fn in sorted(ctx.vcalls):
-        _, args, kwargs = vmod.CALLS[idx]
+    for idx, (fname, args, kwargs, p) in enumerate(vmod.CALLS):
+        p = p or []
         for i, a in enumerate(args):
             plain_result(a, list(p) + [S.ikey(i)], arg_ids, [])
         for k, a in kwargs:
@@ -215,7 +218,7 @@ def observe(tree, lifecycle=False):
             continue
         groups.setdefault(i, []).append(p)
     out["classes"] = sorted(groups.values(), key=lambda g: str(g))
-    out["calls"] = [[p, fn] for _, p, fn in sorted(ctx.vcalls)]
+    out["calls"] = [[c[3] or [], "vmod." + c[0]] for c in vmod.CALLS]
     out["ev"] = ctx.vlog
     out["ids"] = out["ids"] + out.pop("arg_ids")
     if P.project(tree) != before:
